@@ -38,19 +38,16 @@ ASSUMPTIONS = [
 	'members are compared by state (int value, bytes, member tree); the Python class of a byte-array object of the right size is not compared '
 	'(the type converter stores sc.UnresolvedAddress in `address: Address` members and sc.PublicKey in VotingPublicKey members)',
 	'a byte string whose emptiness decides its own presence (nem parent_name) is generated non-empty',
-	'`sort` shadowed inside a nested dictionary is not generated',
 	'a member whose content create itself reads (the discriminant of a conditional member, the nem transfer message) is not given an ill-typed '
-	'value (wrong shape, or through its private attribute); ill-typed values are truthy (a falsy one can switch a condition off in Python)',
+	'value (wrong shape); ill-typed values are truthy (a falsy one can switch a condition off in Python)',
 	'a member of abstract type (nem inner_transaction) is always described: its constructor default is an instance of the abstract class',
 ]
 
 MASK63 = (1 << 63) - 1
 RAW = {'s': '<raw>', 'f': []}
+# private-attribute, method-name and class-attribute keys were known findings (copy_to tested keys with hasattr alone) until the key test was
+# repaired; they are plain members of the malformed stream now: accepted = VIOLATION
 KNOWN = {
-	'private-key': 'C10:copy_to:hasattr:private-attribute-key-accepted',
-	'reserved-key': 'C10:copy_to:hasattr:private-attribute-key-accepted',
-	'method-key': 'C10:copy_to:hasattr:method-name-key-accepted',
-	'class-attr-key': 'C10:copy_to:hasattr:class-attribute-key-accepted',
 	'flag-int-negative': 'C10:flags-parser:negative-int-accepted-as-complement',
 }
 DEFERRED_OK = ('out-of-range-plain',)
@@ -163,10 +160,6 @@ def converter_facts(path):
 	raise ValueError(f'no type converter found in {path}')
 
 
-def object_attrs():
-	return sorted(set(dir(object())) | {'__dict__', '__module__', '__weakref__'})
-
-
 def network_facts(name):
 	"""Everything of Config except schema and networkId, as a JSON-able dict (single source for driver and Generated/C10Consts.lean)."""
 	from translate import pyconst
@@ -190,13 +183,7 @@ def network_facts(name):
 		'sdkClasses': [[key, value] for key, value in sdk_classes.items()],
 		'addressClass': recognised, 'addressKind': name, 'addressTarget': target, 'addressAsText': as_text,
 		'idAutofill': 'symbol' == name, 'messageHack': 'nem' == name,
-		'objectAttrs': object_attrs(),
 	}, identifiers
-
-
-def class_consts(net):
-	return [[type_name, [entry[0] for entry in net.types[type_name].get('consts', [])]]
-		for type_name in net.order if 'struct' == net.types[type_name]['k'] and net.types[type_name].get('consts')]
 
 
 def lean_str(text):
@@ -227,7 +214,6 @@ def translate(ctx):
 			continue
 		pair = lambda item: f'({lean_str(item[0])}, {lean_str(item[1])})'  # noqa: E731 pylint: disable=unnecessary-lambda-assignment
 		sized = lambda item: f'({lean_str(item[0])}, {item[1]})'  # noqa: E731 pylint: disable=unnecessary-lambda-assignment
-		consts = lambda item: f'({lean_str(item[0])}, {lean_list(item[1])})'  # noqa: E731 pylint: disable=unnecessary-lambda-assignment
 		emb = f'some {lean_str(facts["embBase"])}' if facts['embBase'] else 'none'
 		parts += [
 			f'def {name}Config (networkId : Int) : Config where',
@@ -245,8 +231,6 @@ def translate(ctx):
 			f'  addressAsText := {"true" if facts["addressAsText"] else "false"}',
 			f'  idAutofill := {"true" if facts["idAutofill"] else "false"}',
 			f'  messageHack := {"true" if facts["messageHack"] else "false"}',
-			f'  classConsts := {lean_list(class_consts(net), consts)}',
-			f'  objectAttrs := {lean_list(facts["objectAttrs"])}',
 			f'def {name}NetworkIdentifiers : List Int := [{", ".join(str(value) for value in identifiers.values())}]',
 		]
 	parts.append('end SymbolVerif.Generated.C10\n')
@@ -341,7 +325,7 @@ class Side:
 		self.defaults = {}
 		if ctx.driver:
 			answer = ctx.driver.ask(f'schema {name} {self.net.json}')
-			config = dict(self.facts, networkId=self.network_id, classConsts=class_consts(self.net))
+			config = dict(self.facts, networkId=self.network_id)
 			answer2 = ctx.driver.ask(f'config {self.cid} {name} {codec.dumps(config)}')
 			if not answer.startswith('ok') or 'ok' != answer2:
 				ctx.fail('corr', f'driver rejected the {name} schema or configuration: {answer} / {answer2}', {'network': name})
@@ -886,7 +870,7 @@ class Side:
 		name = rng.choice(computed + [rng.choice(fields)['name'], 'size'])
 		result.append(('computed-key', with_pair(name + '_computed', w_int(rng.choice([0, 1, 40]))), name + '_computed'))
 
-		# hasattr leniencies
+		# keys that name something other than a public data member (private attributes, methods, class constants, dunder names)
 		# members whose ill-typed content is *read* by create itself (conditions of sort(), the nem message hack) are left alone
 		special = {entry['cond']['field'] for entry in typedef['fields'] if entry['cond']} | {'type', 'network'}
 		if 'nem' == self.name and type_name.startswith('TransferTransaction'):
@@ -1053,13 +1037,12 @@ class Side:
 						'property', f'{self.label(case)}: malformed descriptor ({category}: {note}) is not rejected by {entry}; {outcome}',
 						dict(case, serialize=ser_status), signature=signature)
 		ctx.count(f'malformed:{category}:{verdict}')
-		shadowing = category in ('method-key', 'class-attr-key', 'reserved-key')
-		self.compare_with_model(case, answer, status, transaction, skip_bytes=shadowing)
+		self.compare_with_model(case, answer, status, transaction)
 
 	# endregion
 
 	def check_reflection(self):
-		"""names the model takes for attributes (hasattr) and constructor defaults, against the generated classes"""
+		"""names the model takes for properties (the keys copy_to lets through) and constructor defaults, against the generated classes"""
 		ctx = self.ctx
 		if not ctx.driver:
 			return
@@ -1071,10 +1054,15 @@ class Side:
 		for index, name in enumerate(names):
 			instance = self.net.cls(name)()
 			model_attrs = set(answers[2 * index][3:].split(',')) if answers[2 * index].startswith('ok ') else None
-			if model_attrs != set(dir(instance)):
-				ctx.fail('corr', f'{self.name}.{name}: the attribute names of the model differ from dir(instance)', {
-					'network': self.name, 'type': name, 'only_model': sorted((model_attrs or set()) - set(dir(instance))),
-					'only_implementation': sorted(set(dir(instance)) - (model_attrs or set()))})
+			properties = {attribute for attribute in dir(type(instance)) if isinstance(getattr(type(instance), attribute, None), property)}
+			if model_attrs != properties:
+				ctx.fail('corr', f'{self.name}.{name}: the property names of the model differ from the properties of the class', {
+					'network': self.name, 'type': name, 'only_model': sorted((model_attrs or set()) - properties),
+					'only_implementation': sorted(properties - (model_attrs or set()))})
+			public_instance = {attribute for attribute in vars(instance) if not attribute.startswith('_')}
+			if public_instance:
+				ctx.fail('corr', f'{self.name}.{name}: the class has public instance attributes the model does not know: {sorted(public_instance)}', {
+					'network': self.name, 'type': name})
 			try:
 				state = self.state_wire(name, instance)
 			except RecursionError:
@@ -1231,11 +1219,12 @@ MANIFEST = {
 	'level_text': (
 		'Theorems over the descriptor model for all descriptors, types and configurations: create_holds_described (every described member holds '
 		'its coerced value, every other member its constructor default, network forced, type/version constants), rejection theorems for unknown '
-		'and computed keys, unknown type / enum / flag names and out-of-range pod integers, autosort_canonical and ids_autofilled; the model is tied '
+		'non-member (private, method, class-constant) and computed keys, unknown type / enum / flag names and out-of-range pod integers, autosort_canonical and ids_autofilled; the model is tied '
 		'to the two factories by a differential run over every transaction name x entry point x autosort and by rule lists re-read from the sources.'),
 	'level_note': (
 		'partial: type-rule overrides (AccountDescriptorRepository) are not modelled; duck-typed inputs outside the documented forms are excluded; '
-		'hashes and UTF-8 validity are parameters; the model is hand-written and tied by differential execution; known findings: hasattr-based key '
-		'check accepts private-attribute, method-name and class-attribute keys; negative flag integers are accepted as complements.'),
+		'hashes and UTF-8 validity are parameters; the model is hand-written and tied by differential execution; known finding: negative flag '
+		'integers are accepted as complements (the hasattr-based key test of copy_to, which let private-attribute, method-name and class-attribute '
+		'keys through, was repaired: such keys are rejected and the check reports them as violations if they are accepted again).'),
 	'technique': 'Lean 4 theorems over a hand-written model + differential correspondence with the Python implementation',
 }
